@@ -457,6 +457,9 @@ func (p *Program) staticEffects(cfg *PropConfig, ld LoadSpec) []*Obligation {
 			}
 		}
 		nfun++
+		// start-up wiring (RegisterInterfaces, RegisterLegacyAminoCodec, RegisterAggregateFunc, ...) runs once per process
+		// before any block is executed, identically on every replica: filling registries there is not a state transition
+		wiring := strings.HasPrefix(fn.Name(), "Register")
 		loops, bodies := findLoops(fn)
 		_ = loops
 		for _, b := range fn.Blocks {
@@ -474,6 +477,12 @@ func (p *Program) staticEffects(cfg *PropConfig, ld LoadSpec) []*Obligation {
 						}
 					}
 				case *ssa.Call:
+					for _, a := range in.Call.Args {
+						if g, ok := a.(*ssa.Global); ok && repoGlobal(x, g) && mutableState(g.Type()) && !wiring && allowed["globalwrite"] == "" {
+							nsites++
+							gwrite = append(gwrite, fmt.Sprintf("%s hands the address of package-level %s.%s to %s: process-local mutable state (%s)", key, g.Pkg.Pkg.Name(), g.Name(), calleeName(&in.Call), x.pos(in.Pos())))
+						}
+					}
 					if sc := in.Call.StaticCallee(); sc != nil && archFloatFuncs[sc.String()] {
 						nsites++
 						if allowed["float"] == "" {
@@ -499,6 +508,14 @@ func (p *Program) staticEffects(cfg *PropConfig, ld LoadSpec) []*Obligation {
 					if g, ok := in.Addr.(*ssa.Global); ok && allowed["globalwrite"] == "" {
 						nsites++
 						gwrite = append(gwrite, fmt.Sprintf("%s stores to package-level %s.%s (%s)", key, g.Pkg.Pkg.Name(), g.Name(), x.pos(in.Pos())))
+					} else if g := globalRoot(in.Addr); g != nil && repoGlobal(x, g) && !wiring && allowed["globalwrite"] == "" {
+						nsites++
+						gwrite = append(gwrite, fmt.Sprintf("%s stores into package-level %s.%s (%s)", key, g.Pkg.Pkg.Name(), g.Name(), x.pos(in.Pos())))
+					}
+				case *ssa.MapUpdate:
+					if g := globalRoot(in.Map); g != nil && repoGlobal(x, g) && !wiring && allowed["globalwrite"] == "" {
+						nsites++
+						gwrite = append(gwrite, fmt.Sprintf("%s updates the package-level map %s.%s (%s)", key, g.Pkg.Pkg.Name(), g.Name(), x.pos(in.Pos())))
 					}
 				case *ssa.Range:
 					if _, isMap := in.X.Type().Underlying().(*types.Map); isMap {
@@ -813,4 +830,54 @@ func (p *Program) loopWrites(body map[*ssa.BasicBlock]bool, resolve func(ssa.Val
 		}
 	}
 	return ws, true
+}
+
+// globalRoot: the package-level variable an address or a container value is derived from (field / element addresses,
+// loads of a global map or slice), or nil.
+func globalRoot(v ssa.Value) *ssa.Global {
+	for i := 0; i < 8; i++ {
+		switch t := v.(type) {
+		case *ssa.Global:
+			return t
+		case *ssa.FieldAddr:
+			v = t.X
+		case *ssa.IndexAddr:
+			v = t.X
+		case *ssa.UnOp:
+			if t.Op != token.MUL {
+				return nil
+			}
+			v = t.X
+		default:
+			return nil
+		}
+	}
+	return nil
+}
+
+func repoGlobal(x *Exec, g *ssa.Global) bool {
+	return g.Pkg != nil && x.prog.repoPkgs[g.Pkg]
+}
+
+// mutableState: *T for a T that carries state a call can change (anything but a plain function value)
+func mutableState(t types.Type) bool {
+	pt, ok := t.Underlying().(*types.Pointer)
+	if !ok {
+		return false
+	}
+	switch pt.Elem().Underlying().(type) {
+	case *types.Signature:
+		return false
+	}
+	return true
+}
+
+func calleeName(c *ssa.CallCommon) string {
+	if sc := c.StaticCallee(); sc != nil {
+		return sc.String()
+	}
+	if c.IsInvoke() {
+		return c.Method.Name()
+	}
+	return c.Value.Name()
 }
